@@ -170,11 +170,16 @@ Definition m_value (c : cfg) : M (option N) :=
   if b then (v <- read_value (mvz c) This false ;; ret (Some v)) else ret None.
 
 Inductive cmpop := CEq | CNe | CLt | CLe | CGt | CGe.
+(* The payload's comparison operators see only the KEY of a stored value: a code is
+   4 * key + shadow, where the shadow is state that == < <= > >= cannot distinguish (the sign bit of
+   a floating-point zero, a struct member the operators ignore).  So operator== of the payload is an
+   equivalence coarser than identity; assignments and copies nevertheless transfer the whole code. *)
+Definition pkey (x : N) : N := x / 4.
 Definition cmp_payload (o : cmpop) (x y : N) : bool :=
   match o with
-  | CEq | CNe => N.eqb x y          (* CNe is !(lhs == rhs) at the wrapper level *)
-  | CLt => N.ltb x y | CLe => N.leb x y
-  | CGt => N.ltb y x | CGe => N.leb y x
+  | CEq | CNe => N.eqb (pkey x) (pkey y)          (* CNe is !(lhs == rhs) at the wrapper level *)
+  | CLt => N.ltb (pkey x) (pkey y) | CLe => N.leb (pkey x) (pkey y)
+  | CGt => N.ltb (pkey y) (pkey x) | CGe => N.leb (pkey y) (pkey x)
   end.
 (* (lhs && rhs) && ( *lhs OP *rhs );   operator!= is !(lhs == rhs) *)
 Definition m_cmp_core (c : cfg) (o : cmpop) : M bool :=
@@ -410,11 +415,21 @@ Inductive aout := AUnit | ABool (b : bool) | AVal (v : N) | AThrow | AStr (t : o
 Inductive ares := AOk (o : aout) (w : aworld) | ANullDeref | AIll.
 
 Definition has_eq (t : N) : bool := negb (N.eqb t 4).
+(* T::operator== on two stored values of the same type t.  It is an equivalence COARSER than
+   identity for some payload types (and not even reflexive for one):
+     tag 6 = double: code 0 = +0.0, 1 = -0.0 (compare equal, differ in the sign bit), 2 = NaN
+             (compares unequal to itself), k >= 3 ordinary distinct values
+     tag 7 = struct {int key; int shadow;} with operator== on key only: code = 16 * key + shadow
+   every other tag: equality of the codes *)
+Definition peqv (t x y : N) : bool :=
+  if N.eqb t 6 then negb (N.eqb x 2) && negb (N.eqb y 2) && (N.eqb x y || (N.leb x 1 && N.leb y 1))
+  else if N.eqb t 7 then N.eqb (x / 16) (y / 16)
+  else N.eqb x y.
 (* handle<T>::isSame(other): dynamic_cast to handle<T> (null stays null) && values equal;
    constant false for a T without operator== *)
 Definition is_same (h : holder) (o : anyw) : bool :=
   match o with
-  | Some h' => N.eqb (h_tag h) (h_tag h') && has_eq (h_tag h) && N.eqb (h_val h) (h_val h')
+  | Some h' => N.eqb (h_tag h) (h_tag h') && has_eq (h_tag h) && peqv (h_tag h) (h_val h) (h_val h')
   | None => false
   end.
 (* bool operator==(const Any &rhs) const
